@@ -26,7 +26,7 @@ ASSUMPTIONS = [
 ]
 TRUSTED = ["taskiq_dependencies 1.5.7 (installed, executed as is)", "CPython asyncio (real, virtual clock)", "vt.sym explorer"]
 BOUNDS = {"graphs": "1 generator dep; generator + async-generator dep; generator dep + failing generator dep", "messages": 1}
-REQUIRED_COVERS = ["inmemory_broker", "behind_plain_nocache", "gen", "gen_agen", "fail", "nocache", "cm_acm", "chain3", "propagate", "no_propagate", "exception_seen", "timeout", "return"]
+REQUIRED_COVERS = ["inmemory_broker", "behind_plain_nocache", "gen", "gen_agen", "fail", "nocache", "cm_acm", "chain3", "propagate", "no_propagate", "exception_seen", "timeout", "timeout_cleanup", "return"]
 
 
 def cases(tier: str, hname: str = "harness") -> List[Any]:
@@ -45,6 +45,7 @@ def harness(c: sym.Ctx, case: Dict[str, Any]) -> None:
     spec: Dict[str, Any] = {
         "ack": case["ack"], "async_ack": False, "target": "async", "deps": deps, "propagate": case["propagate"],
         "backend_fail0": False, "mws": [{"on_error": "sync", "post_execute": "sync"}], "task_gate": False, "backend_gate": False,
+        "outcome_choices": _cb.OUTCOMES + ("timeout_cleanup",),  # a timed-out function whose clean-up after the cancellation takes a while
     }
     if deps == "fail":
         spec["outcome0"] = "return"
@@ -54,7 +55,7 @@ def harness(c: sym.Ctx, case: Dict[str, Any]) -> None:
     c.cover(deps)
     c.cover("propagate" if case["propagate"] else "no_propagate")
     if deps != "fail":
-        c.cover(o) if o in ("timeout", "return") else None
+        c.cover(o) if o in ("timeout", "return", "timeout_cleanup") else None
     c.check(not lab.deadlock and lab.main_done, "no_deadlock")
     opened = [e[1] for e in lab.ev if e[0] == "dep_open"]
     closed = [e[1] for e in lab.ev if e[0] == "dep_close"]
